@@ -390,7 +390,7 @@ func c06Strace(r *vf.Run) {
 	}
 	cases := []sc{{c06Data{"v2500", 2500, []int{2500}}, false}, {c06Data{"r3100", 3100, []int{13, 5}}, true},
 		// several MiB of index data (a copy or compaction of the finished file would need several transactions / many writes)
-		{c06Data{"large", 90000, []int{90000, 30000, 7000, 500, 40, 3}}, false}, {c06Data{"large", 90000, []int{90000, 30000, 7000, 500, 40, 3}}, true}}
+		{c06Large(r), false}, {c06Large(r), true}}
 	if r.Thorough() {
 		cases = append(cases, sc{c06Data{"v1001", 1001, []int{1001}}, false}, sc{c06Data{"r2001", 2001, []int{1500, 3}}, true})
 	}
@@ -542,7 +542,7 @@ func c06SizeKill(r *vf.Run) {
 		d   c06Data
 		big bool
 	}
-	large := c06Data{"large", 90000, []int{90000, 30000, 7000, 500, 40, 3}}
+	large := c06Large(r)
 	cases := []sc{{large, false}, {large, true}, {c06Data{"v2500", 2500, []int{2500}}, false}}
 	if r.Thorough() {
 		cases = append(cases, sc{c06Data{"r3100", 3100, []int{13, 5}}, true}, sc{c06Data{"wide", 40000, []int{40000, 40000, 20000, 9000}}, false}, sc{c06Data{"wide", 40000, []int{40000, 40000, 20000, 9000}}, true})
@@ -643,4 +643,10 @@ func firstNonEmpty(a, b string) string {
 		return a
 	}
 	return b
+}
+
+// c06Large is the dataset whose index spans several MiB (about 8 MiB in the quick tier, 16 MiB in the thorough tier).
+func c06Large(r *vf.Run) c06Data {
+	n := r.Pick(45000, 90000)
+	return c06Data{"large", n, []int{n, n / 3, 7000, 500, 40, 3}}
 }
